@@ -9,6 +9,31 @@ use serde_json::{Value, json};
 use crate::j;
 use crate::util::{Args, Report, TraceOut, catch, read_lines};
 
+/// Hex text of a frame, written here only to build *inputs* (seeds for mutation, strings to damage) even when the
+/// library's own encoder panics; it is never used as an oracle.
+fn seed_encoding(addr: u16, ty: u8, data: &[u8], nl: bool) -> Vec<u8> {
+    let mut payload = vec![data.len() as u8, (addr >> 8) as u8, addr as u8, ty];
+    payload.extend_from_slice(data);
+    let sum = payload.iter().fold(0u8, |a, &b| a.wrapping_add(b));
+    payload.push(0u8.wrapping_sub(sum));
+    let mut s = vec![b':'];
+    for b in payload {
+        s.extend_from_slice(format!("{:02X}", b).as_bytes());
+    }
+    if nl {
+        s.extend_from_slice(b"\r\n");
+    }
+    s
+}
+
+fn lib_encoding(addr: u16, ty: u8, data: &[u8], nl: bool) -> Vec<u8> {
+    catch(|| {
+        let f = j::mk_frame(addr, ty, data);
+        if nl { f.to_bytes_with_newline() } else { f.to_bytes() }
+    })
+    .unwrap_or_else(|_| seed_encoding(addr, ty, data, nl))
+}
+
 fn rand_len(rng: &mut StdRng) -> usize {
     match rng.gen_range(0..100) {
         0..=59 => rng.gen_range(0..=4),
@@ -40,6 +65,15 @@ fn decode(bytes: &[u8]) -> Value {
 }
 
 fn frame_event(addr: u16, ty: u8, data: &[u8], owned: bool) -> Value {
+    // a panic anywhere in the codec is data: the event then carries empty encodings and result kind "panic"
+    match catch(|| frame_event_inner(addr, ty, data, owned)) {
+        Ok(v) => v,
+        Err(_) => json!({"e": "frame", "addr": addr, "type": ty, "data": j::bytes(data), "owned": owned, "getters": false, "enc": [], "encnl": [],
+                         "dec": j::panic_result(), "deceq": false, "decnl": j::panic_result(), "decnleq": false}),
+    }
+}
+
+fn frame_event_inner(addr: u16, ty: u8, data: &[u8], owned: bool) -> Value {
     // Build the frame with owned or borrowed data.
     let frame = if owned {
         Frame::new(Address(addr), MsgType(ty), Data::try_new(data.to_vec()).unwrap())
@@ -192,8 +226,7 @@ pub fn record_c02(a: &Args) -> usize {
     for (addr, ty, data) in frames {
         for nl in [false, true] {
             out.balance();
-            let f = j::mk_frame(addr, ty, &data);
-            let enc = if nl { f.to_bytes_with_newline() } else { f.to_bytes() };
+            let enc = lib_encoding(addr, ty, &data, nl);
             out.emit(json!({"e": "valid", "addr": addr, "type": ty, "data": j::bytes(&data), "nl": nl, "enc": j::bytes(&enc), "res": decode(&enc)}));
             damage_all(&mut out, &enc);
         }
@@ -258,8 +291,7 @@ fn mutate(rng: &mut StdRng, s: &mut Vec<u8>) {
         }
         8 => {
             // splice another frame after it
-            let f = j::mk_frame(rng.r#gen(), rng.r#gen(), &[rng.r#gen()]);
-            s.extend_from_slice(&f.to_bytes());
+            s.extend_from_slice(&seed_encoding(rng.r#gen(), rng.r#gen(), &[rng.r#gen()], false));
         }
         9 => {
             let i = rng.gen_range(0..=s.len());
@@ -370,8 +402,8 @@ pub fn record_c03(a: &Args) -> usize {
             (0..len).map(|_| b":0123456789ABCDEFabcdefG\r\n\x00\xFF"[rng.gen_range(0..28)]).collect()
         } else {
             let len = if kind == 2 && thorough { rng.gen_range(100..=255) } else if kind == 2 { rng.gen_range(20..=120) } else { rand_len(&mut rng).min(40) };
-            let f = j::mk_frame(rng.r#gen(), rng.r#gen(), &rand_bytes(&mut rng, len));
-            if rng.gen_bool(0.5) { f.to_bytes_with_newline() } else { f.to_bytes() }
+            let d = rand_bytes(&mut rng, len);
+            seed_encoding(rng.r#gen(), rng.r#gen(), &d, rng.gen_bool(0.5))
         };
         let muts = match rng.gen_range(0..10) {
             0..=1 => 0,
@@ -559,13 +591,18 @@ pub fn replay_c01(path: &str) {
         let owned = j::mk_frame(addr, ty, &data);
         let borrowed = Frame::new(Address(addr), MsgType(ty), Data::try_new(data.as_slice()).unwrap());
         for (name, f) in [("owned", &owned), ("borrowed", &borrowed)] {
-            let _ = rep.cmp(&format!("to_bytes/{}", name), &ctx, &v["enc"], &j::bytes(&f.to_bytes()));
-            let _ = rep.cmp(&format!("to_bytes_with_newline/{}", name), &ctx, &j::bytes(&encnl), &j::bytes(&f.to_bytes_with_newline()));
+            match catch(|| (f.to_bytes(), f.to_bytes_with_newline())) {
+                Ok((a, b)) => {
+                    let _ = rep.cmp(&format!("to_bytes/{}", name), &ctx, &v["enc"], &j::bytes(&a));
+                    let _ = rep.cmp(&format!("to_bytes_with_newline/{}", name), &ctx, &j::bytes(&encnl), &j::bytes(&b));
+                }
+                Err(p) => rep.mismatch(json!({"what": "encoding panicked", "ctx": ctx, "panic": p})),
+            }
         }
         let expect = json!({"kind": "ok", "addr": addr, "type": ty, "data": v["data"], "expected": 0, "actual": 0});
         let _ = rep.cmp("from_bytes(enc)", &ctx, &expect, &decode(&enc));
         let _ = rep.cmp("from_bytes(enc+CRLF)", &ctx, &expect, &decode(&encnl));
-        let eq = matches!(Frame::from_bytes(&enc), Ok(ref f) if *f == owned && *f == borrowed);
+        let eq = catch(|| matches!(Frame::from_bytes(&enc), Ok(ref f) if *f == owned && *f == borrowed)).unwrap_or(false);
         let _ = rep.cmp("decoded == original", &ctx, &json!(true), &json!(eq));
     }
     rep.finish(json!({}));
@@ -600,7 +637,12 @@ pub fn replay_c04(path: &str) {
         }
         // and the other direction from the spec's message
         let m = j::msg_from(&v["m"]);
-        let _ = rep.cmp("Frame::from(msg)", &ctx, &v["f"], &j::frame(&Frame::from(m)));
+        match catch(|| j::frame(&Frame::from(m))) {
+            Ok(fj) => {
+                let _ = rep.cmp("Frame::from(msg)", &ctx, &v["f"], &fj);
+            }
+            Err(p) => rep.mismatch(json!({"what": "Frame::from(msg) panicked", "ctx": ctx, "panic": p})),
+        }
     }
     rep.finish(json!({}));
 }
@@ -610,7 +652,13 @@ pub fn replay_c05(path: &str) {
     for v in read_lines(path) {
         let m = j::msg_from(&v["m"]);
         let ctx = json!({"m": v["m"]});
-        let wire = Frame::from(m.clone()).to_bytes();
+        let wire = match catch(|| Frame::from(m.clone()).to_bytes()) {
+            Ok(w) => w,
+            Err(p) => {
+                rep.mismatch(json!({"what": "encoding the message panicked", "ctx": ctx, "panic": p}));
+                continue;
+            }
+        };
         let _ = rep.cmp("wire", &ctx, &v["wire"], &j::bytes(&wire));
         let back = catch(|| Frame::from_bytes(&wire).map(Message::from));
         match back {
